@@ -18,6 +18,8 @@ structure GSt where
 structure DSt where
   arr : List Nat := []  -- part r: the array of metatype references (object index per element); its elements
                         -- count as references held outside the three handles
+  dspInit : Bool := false          -- part r: the dispatcher exists
+  dsp : Option (Nat × Nat) := none -- part r: (object, references) the dispatcher's parameter handlers hold
   ksf : Bool := false   -- reply contexts: the send callback refuses
   g : GSt := {}
   m : St := {}
@@ -131,6 +133,41 @@ def step (d : DSt) (w : List String) : DSt × String :=
   let m := d.m.clearEv
   match w with
   | ["r", "begin"] => ({}, "R ok | C - | I ret=0")
+  | ["r", "dsp", "param", os] =>
+    match idx os d.named with
+    | some o =>
+      if (m.obj o).kind != .hmeta ∨ !(m.obj o).alive ∨ d.dsp.isSome then (d, "bad-op") else
+      let d := { d with dspInit := true }
+      -- M: the caller's reference, then one more per further handler until one is refused
+      let (m1, ok1) := m.extAdd o
+      if !ok1 then finish d m1 false "0" (Refs.refusedAlts d.s o) else
+      let (m2, ok2) := m1.extAdd o
+      let (m3, ok3) := if ok2 then m2.extAdd o else (m2, false)
+      let held := if ok3 then 3 else if ok2 then 2 else 1
+      -- S: the dispatcher may hold 1..3 references, each one counted; an attempt beyond them may have reached addref
+      let stepS := fun (acc : Refs.SSt × Nat) (_ : Nat) =>
+        if Refs.canTake acc.1 o then
+          (match Refs.extAdd acc.1 o with | a :: _ => (a.st, acc.2 + 1) | [] => acc) else acc
+      let altsFor := fun (h : Nat) =>
+        let r := (List.range h).foldl stepS (d.s, 0)
+        if r.2 = h then
+          [({ ok := true, st := r.1, evs := [{ obj := o, add := h }] } : Refs.Alt)] ++
+            (if h < 3 ∧ !Refs.canTake r.1 o then [({ ok := true, st := r.1, evs := [{ obj := o, add := h + 1, dead := (r.1.objs.getD o default).dead }] } : Refs.Alt)] else [])
+        else []
+      finish { d with dsp := some (o, held) } m3 true (toString held) (altsFor 1 ++ altsFor 2 ++ altsFor 3 ++ Refs.refusedAlts d.s o)
+    | none => (d, "bad-op")
+  | ["r", "dsp", "fini"] =>
+    if !d.dspInit then (d, "bad-op") else
+    match d.dsp with
+    | none => finish { d with dspInit := false } m true "0" [{ ok := true, st := d.s }]
+    | some (o, held) =>
+      -- every reference the handlers hold is given back, once each
+      let rel := List.replicate held o
+      let m2 := rel.foldl (fun st x => st.extUnref x) m
+      let stepS := fun (acc : Refs.SSt × List Refs.SEv) (al : List Refs.Alt) =>
+        match al with | a :: _ => (a.st, acc.2 ++ a.evs) | [] => acc
+      let s2 := rel.foldl (fun acc x => stepS acc (Refs.extUnref acc.1 x)) (d.s, [])
+      finish { d with dspInit := false, dsp := none } m2 true "0" [{ ok := true, st := s2.1, evs := s2.2 }]
   | ["r", "arr", "new", ns] =>
     match ns.toNat? with
     | some n =>
@@ -279,11 +316,13 @@ def step (d : DSt) (w : List String) : DSt × String :=
         else if src == "addref" then runOp d m (.extAdd o) "0"
         else if src == "unref" then
           -- (the references of the array elements are not the harness's to give back)
-          if (m.obj o).ext ≤ (d.arr.filter (· == o)).length then (d, "bad-op") else runOp d m (.extUnref o) "0"
+          if (m.obj o).ext ≤ (d.arr.filter (· == o)).length + (match d.dsp with | some (x, h) => if x == o then h else 0 | none => 0)
+          then (d, "bad-op") else runOp d m (.extUnref o) "0"
         else (d, "bad-op")
     else (d, "bad-op")
   | ["r", "end"] =>
-    -- the array of references goes first
+    -- the dispatcher and the array of references go first
+    let d := { d with arr := (match d.dsp with | some (x, h) => List.replicate h x | none => []) ++ d.arr, dsp := none, dspInit := false }
     let m := d.arr.foldl (fun st o => st.extUnref o) m
     let stepS0 := fun (acc : Refs.SSt × List Refs.SEv) (al : List Refs.Alt) =>
       match al with | a :: _ => (a.st, acc.2 ++ a.evs) | [] => acc
